@@ -566,6 +566,9 @@ fn spawn_async_ao_list_in_task'''),
         ('dollar-flag-ignores-escape', 'brush-core/src/expansion.rs', "last_was_unescaped_dollar_sign = !last_was_escape && c == '$';", "last_was_unescaped_dollar_sign = c == '$';"),
     ],
     'U23': [
+        ('parameter-word-forgets-to-restore-the-quote-state', 'brush-core/src/expansion.rs', "                let result = self.basic_expand(inner).await;\n                self.in_double_quotes = previously_in_double_quotes;\n", "                let result = self.basic_expand(inner).await;\n"),
+        ('wholly-quoted-parameter-word-stays-in-quotes', 'brush-core/src/expansion.rs', "                let previously_in_double_quotes = self.in_double_quotes;\n                self.in_double_quotes = false;\n", "                let previously_in_double_quotes = self.in_double_quotes;\n"),
+        ('parameter-word-quotes-kept-inside-quotes', 'brush-core/src/expansion.rs', "                let result = self.basic_expand(inner).await;", "                let result = self.basic_expand(stripped).await;"),
         ('single-quoted-text-splittable', 'brush-core/src/expansion.rs', "            brush_parser::word::WordPiece::SingleQuotedText(s) => {\n                Expansion::from(ExpansionPiece::Unsplittable(s))", "            brush_parser::word::WordPiece::SingleQuotedText(s) => {\n                Expansion::from(ExpansionPiece::Splittable(s))"),
         ('unquoted-text-unsplittable', 'brush-core/src/expansion.rs', "            brush_parser::word::WordPiece::Text(s) => {\n                Expansion::from(ExpansionPiece::Splittable(s))", "            brush_parser::word::WordPiece::Text(s) => {\n                Expansion::from(ExpansionPiece::Unsplittable(s))"),
         ('tilde-result-via-string-conversion', 'brush-core/src/expansion.rs', "                Expansion::from(ExpansionPiece::Unsplittable(\n                    self.expand_tilde_expression(&tilde_expr)?.to_string(),\n                ))", "                Expansion::from(self.expand_tilde_expression(&tilde_expr)?.to_string())"),
